@@ -29,6 +29,18 @@ func init() {
 		}
 		return ConstInt(v)
 	}
+	intercepts[apdP+"verifParamIntOr"] = func(ex *Exec, a []Value, c *ssa.CallCommon) Value {
+		name, _ := a[0].(StrV).Concrete()
+		s, ok := ex.Opt.Params[name]
+		if !ok {
+			return a[1]
+		}
+		v, err := strconv.ParseInt(s, 10, 64)
+		if err != nil {
+			ex.unsupported("bad int parameter %q=%q", name, s)
+		}
+		return ConstInt(v)
+	}
 	intercepts[apdP+"verifParamStr"] = func(ex *Exec, a []Value, c *ssa.CallCommon) Value {
 		name, _ := a[0].(StrV).Concrete()
 		s, ok := ex.Opt.Params[name]
@@ -549,10 +561,15 @@ func (ex *Exec) bigQuoRem(x, y IntV) (IntV, IntV) {
 		}
 	}
 	qlo, qhi, rlo, rhi := divInterval(x, y)
-	if y.IsConst() || x.IsConst() && false {
+	xNonNeg0 := xlo != nil && xlo.Sign() >= 0
+	yPos0 := ylo != nil && ylo.Sign() > 0
+	if y.IsConst() && ((xNonNeg0 && yPos0) || x.IsConst()) {
 		q, r := tdiv(x, y)
 		return IntV{T: q, Lo: qlo, Hi: qhi}, IntV{T: r, Lo: rlo, Hi: rhi}
 	}
+	// (a possibly negative dividend goes through fresh q, r as well: the closed form mentions
+	// the dividend several times, and a loop of such divisions would grow exponentially when
+	// the shared term DAG is printed as a tree)
 	// symbolic divisor: fresh quotient and remainder with the defining relation
 	// (one pair per (dividend, divisor) on a path: Euclidean division is a function)
 	if ex.divMemo == nil {
@@ -636,21 +653,39 @@ func (ex *Exec) numDigits(x IntV) int64 {
 	}
 	lo, hi := ex.bounds(x)
 	ten := big.NewInt(10)
-	for n := int64(1); n <= int64(ex.Opt.MaxDigits); n++ {
-		p := new(big.Int).Exp(ten, big.NewInt(n), nil)
-		if lo != nil && lo.Cmp(p) >= 0 {
-			continue
-		}
-		if (hi != nil && hi.Cmp(p) < 0) || ex.decide(Lt(x.T, IntConst(p))) {
-			ex.refine(x.T, nil, new(big.Int).Sub(p, bigOneI))
-			ex.ndMemo[x.T] = n
-			return n
-		}
-		ex.refine(x.T, p, nil)
-		lo = p
+	pow := func(n int64) *big.Int { return new(big.Int).Exp(ten, big.NewInt(n), nil) }
+	// candidate range of the digit count from the interval, then bisection on |x| < 10^mid
+	// (a linear scan costs one query per digit, which dominates at 100+ digits)
+	loN, hiN := int64(1), int64(ex.Opt.MaxDigits)+1
+	if lo != nil && lo.Sign() > 0 {
+		loN = int64(len(lo.String()))
 	}
-	ex.stop("unwind", "NumDigits beyond MaxDigits bound")
-	return 0
+	if hi != nil {
+		if h := int64(len(hi.String())); hi.Sign() > 0 && h < hiN {
+			hiN = h
+		} else if hi.Sign() <= 0 {
+			hiN = 1
+		}
+	}
+	if loN > hiN {
+		loN = hiN
+	}
+	for loN < hiN {
+		mid := (loN + hiN) / 2
+		p := pow(mid)
+		if ex.decide(Lt(x.T, IntConst(p))) {
+			hiN = mid
+			ex.refine(x.T, nil, new(big.Int).Sub(p, bigOneI))
+		} else {
+			loN = mid + 1
+			ex.refine(x.T, p, nil)
+		}
+	}
+	if loN > int64(ex.Opt.MaxDigits) {
+		ex.stop("unwind", "NumDigits beyond MaxDigits bound")
+	}
+	ex.ndMemo[x.T] = loN
+	return loN
 }
 
 // bigDigits returns the decimal text of x (with '-' if negative), forking on sign and digit count.
@@ -844,6 +879,114 @@ func (ex *Exec) externalStub(name string) interceptFn {
 				}
 			}
 			return ConstInt(-1)
+		}
+	case "strings.TrimLeft", "strings.TrimRight":
+		return func(ex *Exec, a []Value, c *ssa.CallCommon) Value {
+			s := a[0].(StrV)
+			cut, ok := a[1].(StrV).Concrete()
+			if !ok {
+				ex.unsupported("%s with a symbolic cutset", name)
+			}
+			inCut := func(b *Term) *Term {
+				cs := []*Term{}
+				for k := 0; k < len(cut); k++ {
+					cs = append(cs, Eq(b, IntConst64(int64(cut[k]))))
+				}
+				return Or(cs...)
+			}
+			bs := s.B
+			if name == "strings.TrimLeft" {
+				for len(bs) > 0 && ex.decide(inCut(bs[0])) {
+					bs = bs[1:]
+				}
+			} else {
+				for len(bs) > 0 && ex.decide(inCut(bs[len(bs)-1])) {
+					bs = bs[:len(bs)-1]
+				}
+			}
+			return StrV{B: bs}
+		}
+	case "strings.HasSuffix":
+		return func(ex *Exec, a []Value, c *ssa.CallCommon) Value {
+			s, p := a[0].(StrV), a[1].(StrV)
+			if len(p.B) > len(s.B) {
+				return ConstBool(false)
+			}
+			off := len(s.B) - len(p.B)
+			cs := make([]*Term, len(p.B))
+			for i := range p.B {
+				cs[i] = Eq(s.B[off+i], p.B[i])
+			}
+			return BoolV{And(cs...)}
+		}
+	case "strings.TrimPrefix", "strings.TrimSuffix":
+		return func(ex *Exec, a []Value, c *ssa.CallCommon) Value {
+			s, p := a[0].(StrV), a[1].(StrV)
+			if len(p.B) > len(s.B) {
+				return s
+			}
+			off := 0
+			if name == "strings.TrimSuffix" {
+				off = len(s.B) - len(p.B)
+			}
+			cs := make([]*Term, len(p.B))
+			for i := range p.B {
+				cs[i] = Eq(s.B[off+i], p.B[i])
+			}
+			if ex.decide(And(cs...)) {
+				if name == "strings.TrimSuffix" {
+					return StrV{B: s.B[:off]}
+				}
+				return StrV{B: s.B[len(p.B):]}
+			}
+			return s
+		}
+	case "strings.LastIndexByte":
+		return func(ex *Exec, a []Value, c *ssa.CallCommon) Value {
+			s := a[0].(StrV)
+			ch := a[1].(IntV).T
+			for i := len(s.B) - 1; i >= 0; i-- {
+				if ex.decide(Eq(s.B[i], ch)) {
+					return ConstInt(int64(i))
+				}
+			}
+			return ConstInt(-1)
+		}
+	case "strings.ContainsRune", "strings.ContainsAny", "strings.Contains", "strings.Index", "strings.IndexAny", "strings.Count", "strings.EqualFold", "strings.Repeat", "strings.ToUpper", "strings.TrimSpace", "strings.Fields", "strings.Split":
+		return func(ex *Exec, a []Value, c *ssa.CallCommon) Value {
+			// concrete arguments only
+			args := make([]string, 0, len(a))
+			for _, v := range a {
+				if sv, ok := v.(StrV); ok {
+					str, ok := sv.Concrete()
+					if !ok {
+						ex.unsupported("%s on a symbolic string (no model for this function)", name)
+					}
+					args = append(args, str)
+				}
+			}
+			switch name {
+			case "strings.Contains":
+				return ConstBool(strings.Contains(args[0], args[1]))
+			case "strings.ContainsAny":
+				return ConstBool(strings.ContainsAny(args[0], args[1]))
+			case "strings.Index":
+				return ConstInt(int64(strings.Index(args[0], args[1])))
+			case "strings.IndexAny":
+				return ConstInt(int64(strings.IndexAny(args[0], args[1])))
+			case "strings.Count":
+				return ConstInt(int64(strings.Count(args[0], args[1])))
+			case "strings.EqualFold":
+				return ConstBool(strings.EqualFold(args[0], args[1]))
+			case "strings.ToUpper":
+				return ConstStr(strings.ToUpper(args[0]))
+			case "strings.TrimSpace":
+				return ConstStr(strings.TrimSpace(args[0]))
+			case "strings.Repeat":
+				return ConstStr(strings.Repeat(args[0], int(a[1].(IntV).Const().Int64())))
+			}
+			ex.unsupported("%s: no model", name)
+			return nil
 		}
 	case "strings.Join":
 		return func(ex *Exec, a []Value, c *ssa.CallCommon) Value { return ConstStr("<join>") }
